@@ -17,8 +17,8 @@ fn run_size<const N: usize>(legacy_only: Option<bool>) -> (u64, BTreeMap<String,
         for bits in 0..8u8 {
             for in_use in [false, true] {
                 for max in c06::max_values(N) {
-                    for skew in [0u32, 0xF_FFFF, 1] {
-                        let c = Case { legacy, indirect: bits & 1 != 0, event_idx: bits & 2 != 0, ap: bits & 4 != 0, in_use, max, skew };
+                    for (skew, fail_alloc) in [(0u32, 0u32), (0xF_FFFF, 0), (1, 0), (0, 1), (0, 2)] {
+                        let c = Case { legacy, indirect: bits & 1 != 0, event_idx: bits & 2 != 0, ap: bits & 4 != 0, in_use, max, skew, fail_alloc };
                         let (o, v) = c06::run_case::<N>(c);
                         evals += 1;
                         *outcomes.entry(format!("N={}:{}", N, o)).or_insert(0) += 1;
@@ -50,7 +50,7 @@ fn main() {
             let i = s.find(&pat).map(|i| i + pat.len()).unwrap_or(0);
             s[i..].chars().take_while(|c| c.is_ascii_digit()).collect::<String>().parse().unwrap_or(0)
         };
-        let c = Case { legacy: g("legacy") != 0, indirect: g("indirect") != 0, event_idx: g("event_idx") != 0, ap: g("ap") != 0, in_use: g("in_use") != 0, max: g("max") as u32, skew: g("skew") as u32 };
+        let c = Case { legacy: g("legacy") != 0, indirect: g("indirect") != 0, event_idx: g("event_idx") != 0, ap: g("ap") != 0, in_use: g("in_use") != 0, max: g("max") as u32, skew: g("skew") as u32, fail_alloc: g("fail_alloc") as u32 };
         let n = g("N");
         let h = std::thread::Builder::new().stack_size(512 << 20).spawn(move || replay_case(n, c)).unwrap();
         let v = h.join().unwrap();
@@ -87,7 +87,8 @@ fn main() {
                 .set("ap", J::i(case.ap as u8))
                 .set("in_use", J::i(case.in_use as u8))
                 .set("max", J::i(case.max))
-                .set("skew", J::i(case.skew));
+                .set("skew", J::i(case.skew))
+                .set("fail_alloc", J::i(case.fail_alloc));
             c.add_violation(Violation::new("C06", k, format!("N={} {:?}: {}", n, case, d)), &part, replay, vec![]);
         }
     }
